@@ -383,6 +383,7 @@ func builtBoxes() []Seed {
 	add("edts", "elst", bx("edts", fb("elst", 0, 0, u32(1), u32(1000), u32(0), u16(1), u16(0))))
 	add("hdlr", "vide", fb("hdlr", 0, 0, u32(0), []byte("vide"), zeros(12), str0("mp4ff video handler")))
 	add("hdlr", "noname", fb("hdlr", 0, 0, u32(0), []byte("soun"), zeros(12), u8(0)))
+	hdlrShapeBoxes(add) // name fields that are more than one C string, alone and in mdia/trak/moov/meta (built_r8c01.go)
 	add("vmhd", "", fb("vmhd", 0, 1, u16(0x0040), u16(0x8000), u16(0x8001), u16(0xffff)))
 	add("smhd", "", fb("smhd", 0, 0, u16(0xff00), u16(0)))
 	add("nmhd", "", fb("nmhd", 0, 0))
